@@ -111,6 +111,8 @@ fn request_bytes(q: &mp::Request, kind: u8, xid: u32) -> Vec<u8> {
         hlen: q.chaddr.len() as u8,
         chaddr: q.chaddr.clone(),
         xid,
+        giaddr: Ipv4Addr::from(q.giaddr),
+        hops: if q.giaddr != 0 { 1 } else { 0 },
         ..Default::default()
     };
     msg.options.push((53, vec![kind]));
@@ -190,13 +192,23 @@ fn c02_case(leg: &mut Leg, r: &mut Rng, case_seed: u64, big_prefix: Option<u8>) 
     ifaces.push(u32::from(Ipv4Addr::new(172, 31, 0, 1)));
     let iface = *r.pick(&ifaces);
     let generic = |i: u32| -> Vec<u8> { vec![0x02, 0xaa, (i >> 16) as u8, (i >> 8) as u8, i as u8, 0x01] };
+    // what the kernel's routing table says about the receiving interface: no default route, the default route leaves through
+    // another interface (= our own address), or it leaves through this very interface towards some other host of the subnet.
+    // None of this is configuration; the documented address set does not depend on it.
+    let if_router: Option<u32> = match r.below(4) {
+        0 => None,
+        1 => Some(iface),
+        2 => Some(iface.wrapping_add(1)),
+        _ => Some(iface.wrapping_sub(1)),
+    };
     let base_req = |chaddr: Vec<u8>| mp::Request {
         chaddr,
         serverip: iface,
         opts: BTreeMap::new(),
         paramlist: vec![1, 3, 6],
         if_mtu: Some(1500),
-        if_router: None,
+        if_router,
+        giaddr: 0,
     };
     // ---- (b) set observation on the derived default policy
     {
@@ -204,7 +216,7 @@ fn c02_case(leg: &mut Leg, r: &mut Rng, case_seed: u64, big_prefix: Option<u8>) 
         let bytes = request_bytes(&q, 1, 1);
         let res = guard::timed(case.yaml.as_bytes(), || {
             let pkt = dhcp::dhcppkt::parse(&bytes).expect("own request");
-            let req = dhcp::DHCPRequest { pkt, serverip: Ipv4Addr::from(iface), ifindex: 2, if_mtu: Some(1500), if_router: None };
+            let req = dhcp::DHCPRequest { pkt, serverip: Ipv4Addr::from(iface), ifindex: 2, if_mtu: Some(1500), if_router: if_router.map(Ipv4Addr::from) };
             let d = dhcp::build_default_config(&c, &req);
             d.policies
                 .iter()
@@ -485,6 +497,7 @@ fn c11_case(leg: &mut Leg, r: &mut Rng, case_seed: u64) {
             paramlist,
             if_mtu: if r.chance(3, 4) { Some(*r.pick(&[1500u32, 1280, 9000])) } else { None },
             if_router: if r.chance(2, 3) { Some(net + 1) } else { None },
+            giaddr: 0,
         };
         let want = mp::model(&case.top, &case.policies, &q);
         let mut pool = match dhcp::pool::Pool::new_in_memory() {
@@ -537,6 +550,29 @@ fn c11_case(leg: &mut Leg, r: &mut Rng, case_seed: u64) {
                     depth(&case.policies, &q)
                 };
                 leg.class(format!("reply|depth{}|opts{}|pl{}|hostbits{}", applied_depth, w.len().min(6), q.paramlist.len().min(4), host_bits));
+                // The same request through a relay agent.  The manual lets match-subnet look at the relay's address, so only
+                // configurations without any match-subnet condition are used, and only the DNS servers are compared: "$self4"
+                // stands for the address the request was RECEIVED on, relay or not.
+                fn any_match_subnet(list: &[mp::Pol]) -> bool {
+                    list.iter().any(|p| p.match_subnet.is_some() || any_match_subnet(&p.children))
+                }
+                if k % 3 == 0 && !any_match_subnet(&case.policies) && g.contains_key(&6) {
+                    let mut qr = q.clone();
+                    qr.giaddr = u32::from(Ipv4Addr::new(10, 250, (k % 200) as u8, 1));
+                    if let Ok(mut pool2) = dhcp::pool::Pool::new_in_memory() {
+                        leg.eval();
+                        if let Ok(Served::Reply(_, got2)) = serve(&c, &mut pool2, &qr, kind, 900 + k) {
+                            leg.count("relayed_requests_compared", 1);
+                            if got2.get(&6) != g.get(&6) {
+                                leg.violation(
+                                    "C11/self4-differs-for-a-relayed-request",
+                                    format!("dns-servers for the direct request {:?}, for the same request relayed through {}: {:?} (received on {})", g.get(&6).map(|x| hex(x)), ipj(qr.giaddr), got2.get(&6).map(|x| hex(x)), ipj(q.serverip)),
+                                    replay.clone(),
+                                );
+                            }
+                        }
+                    }
+                }
                 if w != g {
                     let codes: BTreeSet<u8> = w.keys().chain(g.keys()).copied().collect();
                     for code in codes {
